@@ -51,7 +51,7 @@ def selfRemoved (holder : Nat) (r2 : List Nat) : List Nat :=
 /-- the value check of Inject on one candidate -/
 def incompatPred (byId : Nat → Option Prov) (k : Kind) (c : Nat) : Bool :=
   match byId c with
-  | some p => !assignable k p
+  | some p => !injAssignable k p
   | none => true
 
 /-- candidates after the qualifier filter -/
